@@ -46,7 +46,133 @@ fn case_insensitive<const K: usize>() {
     core::mem::forget(rb);
 }
 
+use unic_locale_impl::extensions::{TransformExtensionList, UnicodeExtensionList};
+use unic_locale_impl::parser::ParserError as LocErr;
+
+fn same_u(a: &(Result<UnicodeExtensionList, LocErr>, usize), b: &(Result<UnicodeExtensionList, LocErr>, usize)) -> bool {
+    match (&a.0, &b.0) {
+        (Ok(x), Ok(y)) => x == y && a.1 == b.1,
+        (Err(_), Err(_)) => true,
+        _ => false,
+    }
+}
+fn same_t(a: &(Result<TransformExtensionList, LocErr>, usize), b: &(Result<TransformExtensionList, LocErr>, usize)) -> bool {
+    match (&a.0, &b.0) {
+        (Ok(x), Ok(y)) => x == y && a.1 == b.1,
+        (Err(_), Err(_)) => true,
+        _ => false,
+    }
+}
+fn recase_all<const K: usize>(a: &[Tok; K]) -> [Tok; K] {
+    let mut b = *a;
+    let mut i = 0;
+    while i < K {
+        b[i] = recase(&a[i]);
+        i += 1;
+    }
+    b
+}
+
+/// -u- body on a length-profiled frame, and the same frame under a symbolic letter-case mask
+fn u_case<const K: usize>(lens: [usize; K]) {
+    let a = h::toks_len(lens);
+    let b = recase_all(&a);
+    h::note_toks(&a);
+    h::note_toks(&b);
+    let ra = h::parse_ulist_tokens(&a);
+    let rb = h::parse_ulist_tokens(&b);
+    cover!(ra.0.is_ok() && a[0].b[0] != b[0].b[0]);
+    assert!(same_u(&ra, &rb), "-u- bodies differing only in letter case both fail or parse to equal values, consuming the same subtags");
+    core::mem::forget((ra, rb));
+}
+fn t_case<const K: usize>(lens: [usize; K]) {
+    let a = h::toks_len(lens);
+    let b = recase_all(&a);
+    h::note_toks(&a);
+    h::note_toks(&b);
+    let ra = h::parse_tlist_tokens(&a);
+    let rb = h::parse_tlist_tokens(&b);
+    cover!(ra.0.is_ok() && a[0].b[0] != b[0].b[0]);
+    assert!(same_t(&ra, &rb), "-t- bodies differing only in letter case both fail or parse to equal values, consuming the same subtags");
+    core::mem::forget((ra, rb));
+}
+
 proofs! {
+
+// -u- attributes: order and repetition do not matter
+[push, sortt] fn c09_attr_order() {
+    let a1 = sym::tok_len(3);
+    let a2 = sym::tok_len(3);
+    let a = [a1, a2];
+    let b = [a2, a1];
+    let c = [a1, a2, a1];
+    h::note_toks(&a);
+    let ra = h::parse_ulist_tokens(&a);
+    let rb = h::parse_ulist_tokens(&b);
+    let rc = h::parse_ulist_tokens(&c);
+    let both = spec::info(&a1).is_utype() && spec::info(&a2).is_utype();
+    cover!(both && ra.0.is_ok());
+    if both {
+        assert!(same_u(&ra, &rb), "order of -u- attributes does not matter");
+        assert!(same_u(&ra, &rc), "repetition of -u- attributes does not matter");
+    }
+    core::mem::forget((ra, rb, rc));
+}
+[push, sortt] fn c09_u_case_3() { u_case([3]) }
+[push, sortt] fn c09_u_case_2_3() { u_case([2, 3]) }
+[push, sortt, sortv, boxed] fn c09_t_case_2_3() { t_case([2, 3]) }
+
+// -u- keywords with distinct keys, -t- fields with distinct keys: order does not matter (two map entries)
+[push, sortt] fn c09_keyword_order() {
+    let (k1, v1, k2, v2) = (sym::tok_len(2), sym::tok_len(3), sym::tok_len(2), sym::tok_len(4));
+    let a = [k1, v1, k2, v2];
+    let b = [k2, v2, k1, v1];
+    h::note_toks(&a);
+    let distinct = spec::txt_cmp(&spec::info(&k1).lower(), &spec::info(&k2).lower()) != 0;
+    let ra = h::parse_ulist_tokens(&a);
+    let rb = h::parse_ulist_tokens(&b);
+    cover!(distinct && ra.0.is_ok());
+    if distinct {
+        assert!(same_u(&ra, &rb), "order of -u- keywords with distinct keys does not matter");
+    }
+    core::mem::forget((ra, rb));
+}
+[push, sortt, sortv, boxed] fn c09_tfield_order() {
+    let (k1, v1, k2, v2) = (sym::tok_len(2), sym::tok_len(3), sym::tok_len(2), sym::tok_len(4));
+    let a = [k1, v1, k2, v2];
+    let b = [k2, v2, k1, v1];
+    h::note_toks(&a);
+    let (i1, i2) = (spec::info(&k1), spec::info(&k2));
+    let distinct = i1.is_tkey() && i2.is_tkey() && spec::txt_cmp(&i1.lower(), &i2.lower()) != 0;
+    let ra = h::parse_tlist_tokens(&a);
+    let rb = h::parse_tlist_tokens(&b);
+    cover!(distinct && ra.0.is_ok());
+    if distinct {
+        assert!(same_t(&ra, &rb), "order of -t- fields with distinct keys does not matter");
+    }
+    core::mem::forget((ra, rb));
+}
+
+// separators in a full identifier: every '?' is '-' or '_' (symbolic) vs the all-'-' spelling
+[push, sortv, boxed] fn c09_sep_langid() {
+    let pat = b"en?Latn?US?macos";
+    let mut buf = *pat;
+    let mut i = 0;
+    while i < pat.len() {
+        if pat[i] == b'?' {
+            buf[i] = if k::bool() { b'_' } else { b'-' };
+        }
+        i += 1;
+    }
+    #[cfg(not(kani))]
+    eprintln!("INPUT a={:?}", String::from_utf8_lossy(&buf));
+    let ra = LanguageIdentifier::from_bytes(&buf);
+    let rb = LanguageIdentifier::from_bytes(b"en-Latn-US-macos");
+    cover!(ra.is_ok() && buf[2] == b'_');
+    assert!(rb.is_ok());
+    assert!(same_outcome(&ra, &rb), "'-' and '_' are interchangeable");
+    core::mem::forget((ra, rb));
+}
 
 [push, sortv, boxed] fn c09_case_1() { case_insensitive::<1>() }
 [push, sortv, boxed] fn c09_case_2() { case_insensitive::<2>() }
